@@ -75,13 +75,18 @@ func (ds *DirStructure) EnsureAbsPath(dirPath string) error {
 		return ds.Parent.EnsureAbsPath(dirPath)
 	}
 
+	// Clean the paths before comparing them, so that elements like ".." cannot
+	// lead out of the DirStructure after the scope check.
+	dirPath = filepath.Clean(dirPath)
+	rootPath := filepath.Clean(ds.Path)
+
 	// check if root
-	if dirPath == ds.Path {
+	if dirPath == rootPath {
 		return ds.ensure(nil)
 	}
 
 	// check scope
-	slashedPath := ds.Path
+	slashedPath := rootPath
 	// add slash to end
 	if !strings.HasSuffix(slashedPath, string(filepath.Separator)) {
 		slashedPath += string(filepath.Separator)
@@ -92,7 +97,7 @@ func (ds *DirStructure) EnsureAbsPath(dirPath string) error {
 	}
 
 	// get relative path
-	relPath, err := filepath.Rel(ds.Path, dirPath)
+	relPath, err := filepath.Rel(rootPath, dirPath)
 	if err != nil {
 		return fmt.Errorf("failed to get relative path: %w", err)
 	}
